@@ -48,7 +48,7 @@ ASSUMPTIONS = ["a crash leaves a prefix of the bytes handed to write() (no torn/
 LEVEL_TEXT = ("fault enumeration: for every generated file all truncation offsets are enumerated exhaustively; the files "
               "themselves (flow contents, hook interleavings) are sampled")
 LEVEL_NOTE = "exhaustive over offsets per file, sampled over files; trusts flowgen.build and the 5-line framing parser"
-QUICK_N, THOROUGH_N = 256, 20_000
+QUICK_N, THOROUGH_N = 120, 20_000
 BUDGET_S = (150, 3600)
 
 _TMP = "/dev/shm" if os.path.isdir("/dev/shm") and os.access("/dev/shm", os.W_OK) else "/var/tmp"
